@@ -743,7 +743,8 @@ func (g *gen) serverCase(spec string) {
 
 func serverSpecs(r *hk.Run) []string {
 	stos := []string{"mem", "disk", "packed", "diskpacked"}
-	idxs := []string{"mem", "leveldb", "kv", "sqlite", "none"}
+	// (no sqlite index: its files keep re-appearing after Close, which would leave temp files behind)
+	idxs := []string{"mem", "leveldb", "kv", "none"}
 	auths := []string{"userpass", "token", "userpassviv", "basic", "devauth"}
 	shares := []string{"/share/", "/pub/s/", "-"}
 	var all []string
@@ -752,6 +753,9 @@ func serverSpecs(r *hk.Run) []string {
 			sh := shares[(i+j)%3]
 			if idx == "none" {
 				sh = "-"
+				if sto == "packed" || sto == "diskpacked" {
+					continue // serverinit.Load panics on these (no sorted implementation without an index)
+				}
 			}
 			low := (i + 2*j) % 3
 			all = append(all, fmt.Sprintf("sto=%s,idx=%s,share=%s,auth=%s,low=%d", sto, idx, sh, auths[(i+j)%5], low))
@@ -783,9 +787,9 @@ func Run(r *hk.Run) {
 		g.op(l)
 	}
 
-	stores, maxLen := 6, 4
+	stores, maxLen := 8, 4
 	if r.Thorough() {
-		stores, maxLen = 14, 5
+		stores, maxLen = 24, 5
 	}
 	for n := 0; n < stores; n++ {
 		g.shareCase(n+int(r.Res.Seed)*stores, maxLen)
